@@ -393,14 +393,21 @@ impl<'a> DoubleEndedIterator for CommentIter<'a> {
                 .src
                 .trim_end_matches(|c: char| c.is_whitespace() && c != '\n');
             if self.src.ends_with('\n') {
-                let comment_line = self.src[..self.src.len() - 1].lines().next_back()?;
+                let newline_len = if self.src.ends_with("\r\n") { 2 } else { 1 };
+                let without_newline = &self.src[..(self.src.len() - newline_len)];
+                if without_newline.is_empty() {
+                    return None;
+                }
+                self.src = without_newline;
+
+                // The line that was ended by the newline
+                let comment_line = self.src.rsplit('\n').next().unwrap_or("");
                 let trimmed = comment_line.trim_start();
 
-                let newline_len = if self.src.ends_with("\r\n") { 2 } else { 1 };
-                self.src = &self.src[..(self.src.len() - newline_len)];
-
                 if trimmed.starts_with("//") && !trimmed.starts_with("///") {
-                    self.src = &self.src[..(self.src.len() - 2 - trimmed.len() - 1)];
+                    // Remove the comment and the indentation before it
+                    self.src = self.src[..(self.src.len() - trimmed.len())]
+                        .trim_end_matches(|c: char| c.is_whitespace() && c != '\n');
                     Some(trimmed)
                 } else {
                     Some("")
